@@ -167,9 +167,11 @@ def eval_single(service, sshape, dshape=None, special=None, msg_id=7, cx_id=1):
         elif sshape in ("str", "none"):
             want = 0x0000 if service == "echo" else 0xC002
         elif sshape in ("neg", "big"):
-            want = "failure"  # out of range: any failure status
+            want = "failure"  # out of range: any failure status (C-ECHO: its documented fallback 0x0000 as for any invalid status)
         if want == "failure":
-            if got is None or refstatus.category(got) != refstatus.FAILURE:
+            if service == "echo" and got == 0x0000:
+                pass
+            elif got is None or refstatus.category(got) != refstatus.FAILURE:
                 c21.append((f"status-{sshape}", f"handler returned status {status_value(sshape)!r}; response status {got!r} is not a failure"))
         elif want is not None and got != want:
             c21.append((f"status-{sshape}{'-' + special if special else ''}", f"handler returned {sshape}{'/' + special if special else ''}: response status {got!r}, documented {want:#06x}"))
